@@ -27,10 +27,11 @@ const (
 	opSleep
 	opWatch
 	opDispose
+	opRebuildPollCancel // Rebuild by this client while a helper task cancels exactly before the k-th poll of the cancel flag
 	numOps
 )
 
-var opNames = []string{"rebuild", "cancel", "edit", "sleep", "watch", "dispose"}
+var opNames = []string{"rebuild", "cancel", "edit", "sleep", "watch", "dispose", "rebuild"}
 
 type c20Op struct {
 	Kind int
@@ -120,7 +121,7 @@ func behave(g G, what string, canFail bool) (fail bool) {
 // c20Plugins: two harness plugins whose callbacks log their entry and exit and behave as
 // the tape says (return, yield, sleep, fail, re-enter Resolve). The first end callback also
 // logs a digest of every output file (used by the Serve checks).
-func c20Plugins(g G, root string) []api.Plugin {
+func c20Plugins(g G, root string, d *verifsim.Disk, write bool) []api.Plugin {
 	mkPlugin := func(idx int, full bool) api.Plugin {
 		name := fmt.Sprintf("verif-p%d", idx)
 		return api.Plugin{Name: name, Setup: func(b api.PluginBuild) {
@@ -148,9 +149,14 @@ func c20Plugins(g G, root string) []api.Plugin {
 					return api.OnResolveResult{}, nil
 				})
 				b.OnLoad(api.OnLoadOptions{Filter: `.*`}, func(a api.OnLoadArgs) (api.OnLoadResult, error) {
-					verifsim.LogEvent("cb<", idx, 0, "load", a.Namespace+":"+a.Path+a.Suffix)
+					// module identity = namespace, path, suffix and import attributes
+					id := a.Namespace + ":" + a.Path + a.Suffix
+					for _, k := range sortedKeys(a.With) {
+						id += " with " + k + "=" + a.With[k]
+					}
+					verifsim.LogEvent("cb<", idx, 0, "load", id)
 					behave(g, "load", false)
-					verifsim.LogEvent("cb>", idx, 0, "load", a.Namespace+":"+a.Path+a.Suffix)
+					verifsim.LogEvent("cb>", idx, 0, "load", id)
 					return api.OnLoadResult{}, nil
 				})
 			}
@@ -158,6 +164,21 @@ func c20Plugins(g G, root string) []api.Plugin {
 				verifsim.LogEvent("cb<", idx, 0, "end", resultDigest(r)+" "+observedVersions(r))
 				if idx == 0 {
 					verifsim.LogEvent("files", idx, len(r.Errors), "", outputFilesDigest(r, root))
+					if write && len(r.Errors) == 0 && d != nil {
+						// end callbacks run after the outputs are written: every reported output
+						// of a build without errors is on the disk now, with the reported bytes
+						missing := 0
+						first := ""
+						for _, f := range r.OutputFiles {
+							if got, ok := d.Get(f.Path); !ok || string(got) != string(f.Contents) {
+								missing++
+								if first == "" {
+									first = f.Path
+								}
+							}
+						}
+						verifsim.LogEvent("enddisk", missing, len(r.OutputFiles), first, "")
+					}
 				}
 				fail := behave(g, "end", true)
 				f := 0
@@ -270,6 +291,7 @@ func scenarioC20(rc *RunCtx) *Violation {
 	nClients := 2 + g.n(3)
 	progs := make([][]c20Op, nClients)
 	watchUsed := false
+	pollCancelUsed := false
 	var progDesc []string
 	for c := range progs {
 		n := 1 + g.n(5)
@@ -288,8 +310,18 @@ func scenarioC20(rc *RunCtx) *Violation {
 			if op.Kind == opSleep {
 				op.Dur = sleepChoices[g.n(len(sleepChoices))]
 			}
+			if op.Kind == opRebuild && c == 0 && !pollCancelUsed && g.n(3) != 0 {
+				// (one per run: the simulator has a single trigger)
+				pollCancelUsed = true
+				op.Kind = opRebuildPollCancel
+				op.Dur = time.Duration(1 + g.n(8) + g.n(20)) // the poll before which the cancellation lands (small projects poll 10-25 times)
+			}
 			progs[c] = append(progs[c], op)
-			names = append(names, opNames[op.Kind])
+			if op.Kind == opRebuildPollCancel {
+				names = append(names, fmt.Sprintf("rebuild+cancel@poll%d", int(op.Dur)))
+			} else {
+				names = append(names, opNames[op.Kind])
+			}
 		}
 		progDesc = append(progDesc, fmt.Sprintf("client%d: %s", c, strings.Join(names, ",")))
 	}
@@ -298,7 +330,7 @@ func scenarioC20(rc *RunCtx) *Violation {
 	rc.Sample("client_programs", progDesc)
 
 	opts := o.Build(p)
-	opts.Plugins = c20Plugins(g, p.Root)
+	opts.Plugins = c20Plugins(g, p.Root, d, opts.Write)
 
 	var zero api.BuildResult
 	zeroDigest := resultDigest(&zero)
@@ -317,8 +349,17 @@ func scenarioC20(rc *RunCtx) *Violation {
 					verifsim.LogEvent("call<", c, i, opNames[op.Kind], "")
 					res := ""
 					switch op.Kind {
-					case opRebuild:
-						r := ctx.Rebuild()
+					case opRebuild, opRebuildPollCancel:
+						var r api.BuildResult
+						if op.Kind == opRebuildPollCancel {
+							cancelRebuild(ctx, 999+int(op.Dur), func(x api.BuildResult) { r = x })
+							rc.Probe("rebuild_cancelled_before_chosen_poll")
+							if debugOn {
+								rc.Probe(fmt.Sprintf("polls_seen_%03d_wanted_%03d_write_%v", verifsim.TriggerCount(), int(op.Dur), opts.Write))
+							}
+						} else {
+							r = ctx.Rebuild()
+						}
 						res = resultDigest(&r) + " " + observedVersions(&r)
 						if len(r.Errors) == 0 && r.Metafile != "" {
 							// internal consistency: metafile outputs = OutputFiles
@@ -503,6 +544,14 @@ func checkC20History(rc *RunCtx, ev []verifsim.Event, disk []verifsim.Op, zeroDi
 		}
 		if len(b.endPlugins) > 0 {
 			rc.Probe("build_with_end_callbacks")
+		}
+	}
+	for _, e := range ev {
+		if e.Kind == "enddisk" {
+			rc.Probe("end_callback_saw_outputs_on_disk_checked")
+			if e.A > 0 {
+				return viol("end-callback-before-outputs-written", "the first end callback of a build without errors ran while %d of its %d reported outputs were not on the disk with the reported bytes (first: %s)", e.A, e.B, e.S)
+			}
 		}
 	}
 	// end callbacks run after the build's outputs are written
